@@ -3,7 +3,7 @@
 From Coq Require Import List NArith ZArith.
 From HS Require Import Quorum.QuorumModel Protocol.Core Protocol.Chained Protocol.ChainedExec Protocol.ChainedExecProofs.
 From HS Require Import Protocol.Fast Protocol.FastExec Protocol.FastExecProofs.
-From HS Require Protocol.Refine Protocol.Bridge Cert.CertModel Crypto.Symbolic Base.Prelude.
+From HS Require Protocol.Refine Protocol.RefineFast Protocol.Bridge Cert.CertModel Crypto.Symbolic Base.Prelude.
 Import ListNotations.
 Open Scope N_scope.
 
@@ -146,6 +146,101 @@ Proof.
            s f lk blk b3).
 Qed.
 Print Assumptions C01_code_level_commit_refines_abstract_rule.
+
+(* the same for simple HotStuff ... *)
+Theorem C01_code_level_simple_vote_refines_abstract_step :
+  forall replicas byz,
+    config_ok replicas byz (Refine.absb Refine.R.genesis) = true ->
+    forall s r f lk v p qb,
+      let genesis := Refine.absb Refine.R.genesis in
+      let blk := Refine.R.p_block p in
+      Chained.reach RSimple (member replicas) (honest byz) (qsize replicas) genesis s ->
+      honest byz r = true ->
+      Refine.view_of f (Chained.U s) ->
+      Chained.U s (Refine.R.b_hash blk) = Some (Refine.absb blk) ->
+      lock (Chained.loc genesis s r) = Refine.absb lk ->
+      Refine.R.get f (Refine.R.qc_hash (Refine.R.b_qc blk)) = Some qb ->
+      Chained.certified (member replicas) (qsize replicas) genesis s (Refine.R.qc_hash (Refine.R.b_qc blk)) ->
+      Refine.R.b_parent blk = Refine.R.qc_hash (Refine.R.b_qc blk) ->
+      Refine.R.b_view qb < Refine.R.b_view blk ->
+      lastVoted (Chained.loc genesis s r) < Refine.R.b_view blk ->
+      Refine.R.simple_vote f lk v p = true ->
+      Chained.step RSimple (member replicas) (honest byz) (qsize replicas) genesis s
+                   (Chained.cast_vote genesis s r (Refine.absb blk)) /\
+      lock (Chained.loc genesis (Chained.cast_vote genesis s r (Refine.absb blk)) r)
+        = Refine.absb (fst (Refine.R.simple_commit f lk blk)).
+Proof.
+  intros replicas byz Hc s r f lk v p qb.
+  exact (Refine.simple_replica_vote_refines (member replicas) (honest byz) (qsize replicas)
+           (quorum_inter_inst replicas byz _ Hc) (quorum_has_honest_inst replicas byz _ Hc)
+           s r f lk v p qb).
+Qed.
+Print Assumptions C01_code_level_simple_vote_refines_abstract_step.
+
+Theorem C01_code_level_simple_commit_refines_abstract_rule :
+  forall replicas byz s f lk blk b3,
+      let genesis := Refine.absb Refine.R.genesis in
+      Chained.reach RSimple (member replicas) (honest byz) (qsize replicas) genesis s ->
+      Refine.view_of f (Chained.U s) ->
+      Chained.certified (member replicas) (qsize replicas) genesis s (Refine.R.qc_hash (Refine.R.b_qc blk)) ->
+      snd (Refine.R.simple_commit f lk blk) = Some b3 ->
+      (forall x, In x f -> Refine.small2 x) ->
+      exists b1 b2,
+        Refine.R.get f (Refine.R.qc_hash (Refine.R.b_qc blk)) = Some b1 /\
+        Chained.commit_rule RSimple (member replicas) (qsize replicas) genesis s
+                            (Refine.absb b3) (Refine.absb b2) (Refine.absb b1).
+Proof.
+  intros replicas byz s f lk blk b3.
+  exact (Refine.simple_replica_commit_refines (member replicas) (honest byz) (qsize replicas)
+           s f lk blk b3).
+Qed.
+Print Assumptions C01_code_level_simple_commit_refines_abstract_rule.
+
+(* ... and for Fast-HotStuff: the optimistic branch needs the certificate's view to be the view
+   of the block it certifies (what the repaired VerifyQuorumCert enforces, C02), the
+   aggregate branch needs the verified aggregate certificate ([agg_ok]). *)
+Theorem C01_code_level_fast_vote_refines_abstract_step :
+  forall replicas byz s r f v p qb,
+    let genesis := Refine.absb Refine.R.genesis in
+    let blk := Refine.R.p_block p in
+    honest byz r = true ->
+    Refine.view_of f (Fast.U s) ->
+    Fast.U s (Refine.R.b_hash blk) = Some (Refine.absb blk) ->
+    Refine.R.get f (Refine.R.qc_hash (Refine.R.b_qc blk)) = Some qb ->
+    Fast.certified (member replicas) (qsize replicas) genesis s (Refine.R.qc_hash (Refine.R.b_qc blk)) ->
+    Refine.R.qc_view (Refine.R.b_qc blk) = Refine.R.b_view qb ->
+    Refine.R.b_parent blk = Refine.R.qc_hash (Refine.R.b_qc blk) ->
+    Refine.R.b_view qb < Refine.R.b_view blk ->
+    f_lastVoted (Fast.loc genesis s r) < Refine.R.b_view blk ->
+    (forall a, Refine.R.p_agg p = Some a ->
+               Fast.agg_ok (member replicas) (qsize replicas) genesis s (Refine.R.agg_view a) (Refine.absb qb)
+               /\ Refine.R.agg_view a < Refine.R.two64 - 1) ->
+    Refine.R.b_view qb < Refine.R.two64 - 1 ->
+    Refine.R.fast_vote f v p = true ->
+    Fast.step (member replicas) (honest byz) (qsize replicas) genesis s
+              (Fast.fcast_vote genesis s r (Refine.absb blk)).
+Proof.
+  intros replicas byz s r f v p qb.
+  exact (RefineFast.fast_replica_vote_refines (member replicas) (honest byz) (qsize replicas)
+           s r f v p qb).
+Qed.
+Print Assumptions C01_code_level_fast_vote_refines_abstract_step.
+
+Theorem C01_code_level_fast_commit_refines_abstract_rule :
+  forall replicas s f blk gp,
+    let genesis := Refine.absb Refine.R.genesis in
+    Refine.view_of f (Fast.U s) ->
+    Fast.certified (member replicas) (qsize replicas) genesis s (Refine.R.qc_hash (Refine.R.b_qc blk)) ->
+    Refine.R.fast_commit f blk = Some gp ->
+    (forall x, In x f -> Refine.R.b_view x < Refine.R.two64 - 1) ->
+    exists par,
+      Refine.R.get f (Refine.R.qc_hash (Refine.R.b_qc blk)) = Some par /\
+      Fast.two_chain (member replicas) (qsize replicas) genesis s (Refine.absb gp) (Refine.absb par).
+Proof.
+  intros replicas s f blk gp.
+  exact (RefineFast.fast_replica_commit_refines (member replicas) (qsize replicas) s f blk gp).
+Qed.
+Print Assumptions C01_code_level_fast_commit_refines_abstract_rule.
 
 (* "certified" is what VerifyQuorumCert establishes (C02's model) under signature
    unforgeability: every genuine vote signature of a member inside the certificate is a vote of
